@@ -9,6 +9,7 @@ import NucsProofs.Examples.MagicSquare
 import NucsProofs.Examples.MagicSquareSym
 import NucsProofs.Examples.Sudoku
 import NucsProofs.Examples.Bibd
+import NucsProofs.Examples.BibdSym
 import NucsProofs.Examples.Alpha
 import NucsProofs.Examples.Donald
 import NucsProofs.Examples.Tsp
@@ -56,8 +57,12 @@ import NucsProofs.Examples.Counts
   and for the Schur model for every n (`C20_schurLemma_sb_iff`: the flag adds one lexicographic comparison of the first ⌊3n/2⌋
   variables with the rest; `C20_schurLemma_sb_preserves`, `C20_schurLemma_sb_sat_iff`: a renaming of the colours makes its first
   comparison 0 < 1; SchurSym.lean).
-  Not proved: the larger literature counts, preservation of satisfiability and optimum by symmetry
-  breaking for the remaining flagged models — BIBD, quasigroup, sports scheduling (tested).  Noted by the count proofs: for ODD n the shipped symmetry-breaking Schur model
+  and for the BIBD model for ALL parameters (`C20_bibd_sb_iff`: the flag says that adjacent rows and adjacent columns of the
+  incidence matrix are in lexicographic order; `C20_bibd_sb_preserves`, `C20_bibd_sb_sat_iff`: the double-lex theorem
+  `exists_doubleLex` — swapping two adjacent rows or columns that are out of order keeps a design a design and strictly decreases
+  the matrix read as a binary number; DoubleLex.lean, BibdSym.lean).
+  Not proved: the larger literature counts, preservation of satisfiability by symmetry
+  breaking for the remaining flagged models — quasigroup, sports scheduling (tested).  Noted by the count proofs: for ODD n the shipped symmetry-breaking Schur model
   posts lexicographic_leq on 3n variables (an odd number), outside that constraint's documented shape; the
   contract of lexicographic_leq and its local theorems were then generalised to odd arity (the last variable
   is ignored, as the code does).
